@@ -50,11 +50,18 @@ func (info *decodeInfo) decodeCharString(code []byte, name string) (*Glyph, erro
 	var LsbX funit.Int16 // TODO(voss): use float64
 	var LsbY funit.Int16
 	isClosed := true
+	inFlex := false
 	rClosePath := func() {
 		res.Cmds = append(res.Cmds, GlyphOp{Op: OpClosePath})
 		isClosed = true
 	}
 	rMoveTo := func(dx, dy float64) {
+		if inFlex {
+			// the moves of a flex sequence only mark reference points
+			posX += dx
+			posY += dy
+			return
+		}
 		if !isClosed {
 			rClosePath()
 		}
@@ -409,11 +416,13 @@ glyphLoop:
 						return nil, errIncomplete
 					}
 					postscriptStack = postscriptStack[:len(postscriptStack)-1]
+					inFlex = false
 				case 1: // flex start (0 args)
 					flexData = flexData[:0]
+					inFlex = true
 				case 2: // flex coordinate pair (0 args)
 					flexData = append(flexData, posX, posY)
-					if len(res.Cmds) > 0 {
+					if !inFlex && len(res.Cmds) > 0 {
 						// remove the rmoveTo command
 						res.Cmds = res.Cmds[:len(res.Cmds)-1]
 					}
